@@ -95,7 +95,7 @@ def _plain_reader(fn, call, where):
                 var = n.targets[0].id
     if var is None:
         raise TranslateError("%s: no dictionary obtained from %s" % (where, call))
-    uses = _uses(fn, var, where)
+    uses = sorted(_uses(fn, var, where))          # alphabetical: independent of the order of the loader's statements
     if not uses:
         raise TranslateError("%s: the loader looks up no key" % where)
     return [[k] for k in uses], uses
